@@ -3,11 +3,12 @@
 // user's lengths n, m).  float model: F-opaque; the F-real reading appears only in the precondition that `equilibrate` (unit csc_math)
 // carries (scaling bounds) -- canary_real_axioms MUST fail.
 use vstd::prelude::*;
+use std::marker::PhantomData;
 verus! {
 //@include prelude/float_opaque.rs
 //@include prelude/float_real_axioms.rs
 
-//@enum file=src/solver/core/cones/supportedcone.rs name=SupportedConeT rules=R12 derive="Clone"
+//@enum file=src/solver/core/cones/supportedcone.rs name=SupportedConeT rules=R12
 //@struct file=src/algebra/csc/core.rs name=CscMatrix
 //@struct file=src/solver/implementations/default/settings.rs name=DefaultSettings rules=R1f
 //@struct file=src/solver/implementations/default/presolver.rs name=PresolverRowReductionIndex
@@ -224,48 +225,596 @@ impl DefaultKKTSystem<F> {
 }
 
 // ------------------------------------------------------------------ DefaultSolver::new
-// what the caller must supply for the construction to go through without a panic
-pub open spec fn new_pre(P: CscMatrix<F>, q: Seq<F>, A: CscMatrix<F>, b: Seq<F>, cones: Seq<SupportedConeT<F>>, settings: DefaultSettings<F>) -> bool {
-    // C04: consistent dimensions (otherwise: documented panic, see new_returns below)
-    &&& dims_consistent(P, q, A, b, cones) && nvars_fit(cones)
+// what the caller must supply, besides consistent dimensions, for the construction to go through without a panic
+pub open spec fn new_pre_other(P: CscMatrix<F>, A: CscMatrix<F>, cones: Seq<SupportedConeT<F>>, settings: DefaultSettings<F>) -> bool {
+    // no cone dimension wraps (alpha.len() + dim2 of a GenPowerConeT)
+    &&& nvars_fit(cones)
     // well-formed CSC inputs (new never calls check_format)
     &&& csc_wf(P) && csc_wf(A)
-    // documented panic otherwise
+    // documented panic otherwise ("Indirect and other solve strategies not yet supported.")
     &&& settings.direct_kkt_solver
     // scaling bounds as unit csc_math requires them of `equilibrate` (defaults 1e-4, 1e4)
     &&& 0real < settings.equilibrate_min_scaling.v() <= 1real && 1real <= settings.equilibrate_max_scaling.v()
 }
-// what the constructed solver looks like
-pub open spec fn new_post(r: DefaultSolver<F>, A: CscMatrix<F>, settings: DefaultSettings<F>) -> bool {
-    // the precondition of `solve` (unit solve): timers present, iterate and saved iterate of equal dimensions
-    &&& r.timers is Some
-    &&& r.variables.dims_spec() == r.prev_vars.dims_spec()
-    // C01 / C03: the report vectors have the USER's lengths (n, m, m), also when presolve has dropped rows
-    &&& r.solution.x@.len() == A.n && r.solution.z@.len() == A.m && r.solution.s@.len() == A.m
-    // the iterate, the two step vectors and the saved iterate have the INTERNAL dimensions (n, m_reduced)
-    &&& r.data.n == A.n && r.data.m <= A.m
-    &&& r.variables.dims_spec() == (r.data.n as nat, r.data.m as nat, r.data.m as nat)
-    &&& r.step_lhs.dims_spec() == r.variables.dims_spec() && r.step_rhs.dims_spec() == r.variables.dims_spec()
-    &&& r.prev_vars.dims_spec() == r.variables.dims_spec()
-    &&& r.residuals.rx@.len() == r.data.n && r.residuals.rz@.len() == r.data.m
-    // the cones cover exactly the internal rows; the KKT system is built for (n, m)
-    &&& r.cones.numel == r.data.m
-    &&& r.kktsystem.dim_n() == r.data.n && r.kktsystem.dim_m() == r.data.m
-    &&& r.data.shape_ok()
-    // C09 / C03: the precondition of DefaultSolution::post_process (unit postprocess)
-    &&& shapes_ok(r.solution, r.variables, r.data)
-    // the settings are stored as given; the report starts out Unsolved
-    &&& r.settings == settings
-    &&& r.solution.status == SolverStatus::Unsolved
-}
 
 impl DefaultSolver<F> {
+// (A) consistent dimensions: the constructor returns (no panic: neither the documented ones nor `assert_eq!(cones.numel, data.m)`
+//     nor an index / overflow) and hands back a solver on which `solve` may be called
 //@fn file=src/solver/implementations/default/solver.rs in="impl<T> DefaultSolver<T>" name=new rules=R1,R6,R7t ret=r
 //@contract
-    requires new_pre(*P, q@, *A, b@, cones@, settings),
-    ensures new_post(r, *A, settings),
+    requires
+        // C04: consistent dimensions (otherwise: documented panic, extraction (B))
+        dims_consistent(*P, q@, *A, b@, cones@),
+        new_pre_other(*P, *A, cones@, settings),
+    ensures
+        // the precondition of `solve` (unit solve): timers present, iterate and saved iterate of equal dimensions
+        r.timers is Some,
+        r.variables.dims_spec() == r.prev_vars.dims_spec(),
+        // C01 / C03: the report vectors have the USER's lengths (n, m, m), also when presolve has dropped rows
+        r.solution.x@.len() == A.n, r.solution.z@.len() == A.m, r.solution.s@.len() == A.m,
+        // the iterate, the two step vectors and the saved iterate have the INTERNAL dimensions (n, m_reduced)
+        r.data.n == A.n, r.data.m <= A.m,
+        r.variables.dims_spec() == (r.data.n as nat, r.data.m as nat, r.data.m as nat),
+        r.step_lhs.dims_spec() == (r.data.n as nat, r.data.m as nat, r.data.m as nat),
+        r.step_rhs.dims_spec() == (r.data.n as nat, r.data.m as nat, r.data.m as nat),
+        r.prev_vars.dims_spec() == (r.data.n as nat, r.data.m as nat, r.data.m as nat),
+        r.residuals.rx@.len() == r.data.n, r.residuals.rz@.len() == r.data.m,
+        // the cones cover exactly the internal rows; the KKT system is built for (n, m); the data keep their shape under equilibration
+        r.cones.numel == r.data.m,
+        r.kktsystem.dim_n() == r.data.n, r.kktsystem.dim_m() == r.data.m,
+        r.data.shape_ok(),
+        // C09 / C03: the precondition of DefaultSolution::post_process (unit postprocess)
+        shapes_ok(r.solution, r.variables, r.data),
+        // the settings are stored as given; the report starts out Unsolved
+        r.settings == settings,
+        r.solution.status == SolverStatus::Unsolved,
 //@before "let cones = CompositeCone"
         proof { broadcast use real_arith; }
+//@end
+}
+
+// (B) the documented panic: whenever the constructor RETURNS, the dimensions were consistent -- with inconsistent dimensions it
+//     does not produce a result.  Same text, extracted a second time against the other proved contract of _check_dimensions.
+pub mod returns_view {
+    use super::*;
+    // _check_dimensions -- PROVED in unit postprocess, extraction (b) (rule R26: the asserts are a complete test)
+    #[verifier::external_body]
+    pub fn _check_dimensions(P: &CscMatrix<F>, q: &[F], A: &CscMatrix<F>, b: &[F], cone_types: &[SupportedConeT<F>])
+        requires
+            // the cone dimensions are summed in usize: ASSUMED not to wrap (a wrapped sum could equal m by accident)
+            total_nvars(cone_types@) <= usize::MAX, nvars_fit(cone_types@),
+        ensures dims_consistent(*P, q@, *A, b@, cone_types@),
+    { unimplemented!() }
+    impl DefaultSolver<F> {
+//@fn file=src/solver/implementations/default/solver.rs in="impl<T> DefaultSolver<T>" name=new as=new_returns rules=R1,R6,R7t ret=r
+//@contract
+    requires
+        total_nvars(cones@) <= usize::MAX,
+        new_pre_other(*P, *A, cones@, settings),
+    ensures
+        // C04: "Inconsistent dimensions are rejected at construction (documented panic) rather than producing a result"
+        dims_consistent(*P, q@, *A, b@, cones@),
+        r.timers is Some,
+        r.solution.x@.len() == A.n, r.solution.z@.len() == A.m, r.solution.s@.len() == A.m,
+//@before "let cones = CompositeCone"
+        proof { broadcast use real_arith; }
+//@end
+    }
+}
+
+
+// ================================================================== item 2: src/solver/core/cones/supportedcone.rs
+// make_cone: every user-facing cone description becomes the internal cone object of the SAME family with the SAME number of
+// rows (numel = nvars).  The constructors and `numel` methods of the zero, nonnegative, second-order and generalized power cones
+// are the real ones; the exponential and power cone constructors (DenseMatrixSym3::zeros, array repeat) are stand-ins.
+//@struct file=src/solver/core/cones/zerocone.rs name=ZeroCone
+//@struct file=src/solver/core/cones/nonnegativecone.rs name=NonnegativeCone rules=R2
+//@struct file=src/solver/core/cones/socone.rs name=SecondOrderConeSparseData
+//@struct file=src/solver/core/cones/socone.rs name=SecondOrderCone rules=R2
+//@struct file=src/solver/core/cones/expcone.rs name=ExponentialCone keep=grad,z
+//@struct file=src/solver/core/cones/powcone.rs name=PowerCone rules=R2 keep=alpha,grad,z
+// GenPowerConeData::new asserts `all alpha > 0` and `|1 - sum alpha| < eps * len / 2` ("The alpha terms must sum to 1": documented
+// panic) and computes `alpha.len() + dim2`: opaque stand-in, the two assertions are the uninterpreted predicate genpow_alpha_ok
+#[verifier::external_body]
+#[verifier::accept_recursive_types(T)]
+pub struct GenPowerConeData<T> { _p: Option<T> }
+pub uninterp spec fn genpow_alpha_ok(a: Seq<F>) -> bool;
+impl GenPowerConeData<F> {
+    #[verifier::external_body]
+    pub fn new(alpha: &[F], dim2: usize) -> (r: Self)
+        requires genpow_alpha_ok(alpha@), alpha@.len() + dim2 <= usize::MAX,
+    { unimplemented!() }
+}
+//@struct file=src/solver/core/cones/genpowcone.rs name=GenPowerCone rules=R2
+//@enum file=src/solver/core/cones/supportedcone.rs name=SupportedCone rules=R12
+//@enum file=src/solver/core/cones/supportedcone.rs name=SupportedConeTag rules=R12 derive="PartialEq, Eq, Clone, Copy, Structural"
+
+impl ZeroCone<F> {
+//@fn file=src/solver/core/cones/zerocone.rs in="impl<T> ZeroCone<T>" name=new rules=R1 ret=r
+//@contract
+    ensures r.dim == dim,
+//@end
+//@fn file=src/solver/core/cones/zerocone.rs in="Cone<T> for ZeroCone<T>" name=numel rules=R1 ret=r
+//@contract
+    ensures r == self.dim,
+//@end
+}
+impl NonnegativeCone<F> {
+//@fn file=src/solver/core/cones/nonnegativecone.rs in="impl<T> NonnegativeCone<T>" name=new rules=R1,R2 ret=r
+//@contract
+    ensures r.dim == dim, r.w@.len() == dim, r.lambda@.len() == dim,
+//@end
+//@fn file=src/solver/core/cones/nonnegativecone.rs in="Cone<T> for NonnegativeCone<T>" name=numel rules=R1 ret=r
+//@contract
+    ensures r == self.dim,
+//@end
+}
+impl SecondOrderConeSparseData<F> {
+//@fn file=src/solver/core/cones/socone.rs in="impl<T> SecondOrderConeSparseData<T>" name=new rules=R1 ret=r
+//@contract
+    ensures r.u@.len() == dim, r.v@.len() == dim,
+//@end
+}
+impl SecondOrderCone<F> {
+//@fn file=src/solver/core/cones/socone.rs in="impl<T> SecondOrderCone<T>" name=new rules=R1,R2 ret=r
+//@contract
+    requires dim >= 2,        // `assert!(dim >= 2)`: a second-order cone of dimension 0 or 1 is never constructed (new_collapsed turns it into nothing / a nonnegative cone)
+    ensures r.dim == dim, r.w@.len() == dim, r.lambda@.len() == dim,
+        (r.sparse_data is Some) == (dim > 4),
+//@end
+//@fn file=src/solver/core/cones/socone.rs in="Cone<T> for SecondOrderCone<T>" name=numel rules=R1 ret=r
+//@contract
+    ensures r == self.dim,
+//@end
+}
+impl ExponentialCone<F> {
+    // stand-in (DenseMatrixSym3::zeros(), [T::zero(); 3]): total, by inspection
+    #[verifier::external_body] pub fn new() -> Self { unimplemented!() }
+//@fn file=src/solver/core/cones/expcone.rs in="Cone<T> for ExponentialCone<T>" name=numel rules=R1 ret=r
+//@contract
+    ensures r == 3,
+//@end
+}
+impl PowerCone<F> {
+    // stand-in (as above); the exponent is stored
+    #[verifier::external_body] pub fn new(alpha: F) -> (r: Self) ensures r.alpha == alpha { unimplemented!() }
+//@fn file=src/solver/core/cones/powcone.rs in="Cone<T> for PowerCone<T>" name=numel rules=R1 ret=r
+//@contract
+    ensures r == 3,
+//@end
+}
+impl GenPowerCone<F> {
+//@fn file=src/solver/core/cones/genpowcone.rs in="impl<T> GenPowerCone<T>" name=new rules=R1,R2 ret=r
+//@contract
+    requires genpow_alpha_ok(alpha@), alpha@.len() + dim2 <= usize::MAX,
+    ensures r.alpha@ == alpha@, r.dim2 == dim2,
+//@end
+//@fn file=src/solver/core/cones/genpowcone.rs in="impl<T> GenPowerCone<T>" name=dim1 rules=R1,R2 ret=r
+//@contract
+    ensures r == self.alpha@.len(),
+//@end
+//@fn file=src/solver/core/cones/genpowcone.rs in="impl<T> GenPowerCone<T>" name=dim2 rules=R1,R2 ret=r
+//@contract
+    ensures r == self.dim2,
+//@end
+//@fn file=src/solver/core/cones/genpowcone.rs in="impl<T> GenPowerCone<T>" name=dim rules=R1,R2 ret=r
+//@contract
+    requires self.alpha@.len() + self.dim2 <= usize::MAX,
+    ensures r == self.alpha@.len() + self.dim2,
+//@end
+//@fn file=src/solver/core/cones/genpowcone.rs in="Cone<T> for GenPowerCone<T>" name=numel rules=R1,R2 ret=r
+//@contract
+    requires self.alpha@.len() + self.dim2 <= usize::MAX,
+    ensures r == self.alpha@.len() + self.dim2,
+//@end
+}
+// what `#[enum_dispatch(Cone<T>)]` generates for SupportedCone (macro expansion, ASSUMED): `From<X> for SupportedCone` wraps X into
+// the variant of its name; `Cone::numel` on the enum calls the member's `numel` (the contracts just above)
+pub open spec fn sc_numel(c: SupportedCone<F>) -> nat {
+    match c {
+        SupportedCone::ZeroCone(x) => x.dim as nat,
+        SupportedCone::NonnegativeCone(x) => x.dim as nat,
+        SupportedCone::SecondOrderCone(x) => x.dim as nat,
+        SupportedCone::ExponentialCone(_) => 3,
+        SupportedCone::PowerCone(_) => 3,
+        SupportedCone::GenPowerCone(x) => x.alpha@.len() + x.dim2 as nat,
+    }
+}
+impl vstd::std_specs::convert::FromSpecImpl<ZeroCone<F>> for SupportedCone<F> {
+    open spec fn obeys_from_spec() -> bool { true }
+    open spec fn from_spec(c: ZeroCone<F>) -> SupportedCone<F> { SupportedCone::ZeroCone(c) }
+}
+impl From<ZeroCone<F>> for SupportedCone<F> { fn from(c: ZeroCone<F>) -> (r: SupportedCone<F>) { SupportedCone::ZeroCone(c) } }
+impl vstd::std_specs::convert::FromSpecImpl<NonnegativeCone<F>> for SupportedCone<F> {
+    open spec fn obeys_from_spec() -> bool { true }
+    open spec fn from_spec(c: NonnegativeCone<F>) -> SupportedCone<F> { SupportedCone::NonnegativeCone(c) }
+}
+impl From<NonnegativeCone<F>> for SupportedCone<F> { fn from(c: NonnegativeCone<F>) -> (r: SupportedCone<F>) { SupportedCone::NonnegativeCone(c) } }
+impl vstd::std_specs::convert::FromSpecImpl<SecondOrderCone<F>> for SupportedCone<F> {
+    open spec fn obeys_from_spec() -> bool { true }
+    open spec fn from_spec(c: SecondOrderCone<F>) -> SupportedCone<F> { SupportedCone::SecondOrderCone(c) }
+}
+impl From<SecondOrderCone<F>> for SupportedCone<F> { fn from(c: SecondOrderCone<F>) -> (r: SupportedCone<F>) { SupportedCone::SecondOrderCone(c) } }
+impl vstd::std_specs::convert::FromSpecImpl<ExponentialCone<F>> for SupportedCone<F> {
+    open spec fn obeys_from_spec() -> bool { true }
+    open spec fn from_spec(c: ExponentialCone<F>) -> SupportedCone<F> { SupportedCone::ExponentialCone(c) }
+}
+impl From<ExponentialCone<F>> for SupportedCone<F> { fn from(c: ExponentialCone<F>) -> (r: SupportedCone<F>) { SupportedCone::ExponentialCone(c) } }
+impl vstd::std_specs::convert::FromSpecImpl<PowerCone<F>> for SupportedCone<F> {
+    open spec fn obeys_from_spec() -> bool { true }
+    open spec fn from_spec(c: PowerCone<F>) -> SupportedCone<F> { SupportedCone::PowerCone(c) }
+}
+impl From<PowerCone<F>> for SupportedCone<F> { fn from(c: PowerCone<F>) -> (r: SupportedCone<F>) { SupportedCone::PowerCone(c) } }
+impl vstd::std_specs::convert::FromSpecImpl<GenPowerCone<F>> for SupportedCone<F> {
+    open spec fn obeys_from_spec() -> bool { true }
+    open spec fn from_spec(c: GenPowerCone<F>) -> SupportedCone<F> { SupportedCone::GenPowerCone(c) }
+}
+impl From<GenPowerCone<F>> for SupportedCone<F> { fn from(c: GenPowerCone<F>) -> (r: SupportedCone<F>) { SupportedCone::GenPowerCone(c) } }
+
+// which internal family a user-facing description belongs to
+pub open spec fn tag_of_t(c: SupportedConeT<F>) -> SupportedConeTag {
+    match c {
+        SupportedConeT::ZeroConeT(_) => SupportedConeTag::ZeroCone,
+        SupportedConeT::NonnegativeConeT(_) => SupportedConeTag::NonnegativeCone,
+        SupportedConeT::SecondOrderConeT(_) => SupportedConeTag::SecondOrderCone,
+        SupportedConeT::ExponentialConeT() => SupportedConeTag::ExponentialCone,
+        SupportedConeT::PowerConeT(_) => SupportedConeTag::PowerCone,
+        SupportedConeT::GenPowerConeT(_, _) => SupportedConeTag::GenPowerCone,
+    }
+}
+pub open spec fn tag_of(c: SupportedCone<F>) -> SupportedConeTag {
+    match c {
+        SupportedCone::ZeroCone(_) => SupportedConeTag::ZeroCone,
+        SupportedCone::NonnegativeCone(_) => SupportedConeTag::NonnegativeCone,
+        SupportedCone::SecondOrderCone(_) => SupportedConeTag::SecondOrderCone,
+        SupportedCone::ExponentialCone(_) => SupportedConeTag::ExponentialCone,
+        SupportedCone::PowerCone(_) => SupportedConeTag::PowerCone,
+        SupportedCone::GenPowerCone(_) => SupportedConeTag::GenPowerCone,
+    }
+}
+// the documented / asserted conditions under which the internal cone object can be built
+pub open spec fn cone_constructible(c: SupportedConeT<F>) -> bool {
+    match c {
+        SupportedConeT::SecondOrderConeT(d) => d >= 2,
+        SupportedConeT::GenPowerConeT(a, d2) => genpow_alpha_ok(a@) && a@.len() + d2 <= usize::MAX,
+        _ => true,
+    }
+}
+//@fn file=src/solver/core/cones/supportedcone.rs name=make_cone rules=R1,R2,R12 ret=r
+//@contract
+    requires cone_constructible(*cone),
+    ensures
+        // same family, same number of rows; the power cone keeps its exponent, the generalized power cone its exponents and dim2
+        tag_of(r) == tag_of_t(*cone),
+        sc_numel(r) == nvars_spec(*cone),
+        (r matches SupportedCone::PowerCone(p) ==> cone matches SupportedConeT::PowerConeT(a) && p.alpha == a),
+        (r matches SupportedCone::GenPowerCone(g) ==> cone matches SupportedConeT::GenPowerConeT(a, d2) && g.alpha@.len() == a@.len() && g.dim2 == d2),
+//@end
+
+pub trait SupportedConeAsTag { fn as_tag(&self) -> SupportedConeTag; }
+impl SupportedConeAsTag for SupportedConeT<F> {
+//@fn file=src/solver/core/cones/supportedcone.rs in="impl<T> SupportedConeAsTag for SupportedConeT<T>" name=as_tag rules=R1,R12 ret=r
+//@contract
+    ensures r == tag_of_t(*self),
+//@end
+}
+impl SupportedConeAsTag for SupportedCone<F> {
+//@fn file=src/solver/core/cones/supportedcone.rs in="SupportedConeAsTag for SupportedCone<T>" name=as_tag rules=R1,R12 ret=r
+//@contract
+    ensures r == tag_of(*self),
+//@end
+}
+
+
+// ---- CompositeCone::new, FIRST half (statement slice `new_head`; the second half is `new_tail` in unit composite): the internal
+// cone list is make_cone mapped over (a copy of) the descriptions, `numel` is the sum of the members' sizes = the sum of nvars,
+// `_is_symmetric` the AND of the members' flags.  DROPPED from the slice: the two statements on the HashMap `type_counts`
+// (`HashMap::new()`, `*type_counts.entry(cone.as_tag()).or_insert(0) += 1`: std HashMap, outside Verus; only printing reads it).
+// `#[derive(Clone)]` on SupportedConeT, written out (macro expansion, ASSUMED to be this; the body is verified against cone_same)
+pub open spec fn cone_same(a: SupportedConeT<F>, b: SupportedConeT<F>) -> bool {
+    match a {
+        SupportedConeT::ZeroConeT(d) => b == SupportedConeT::<F>::ZeroConeT(d),
+        SupportedConeT::NonnegativeConeT(d) => b == SupportedConeT::<F>::NonnegativeConeT(d),
+        SupportedConeT::SecondOrderConeT(d) => b == SupportedConeT::<F>::SecondOrderConeT(d),
+        SupportedConeT::ExponentialConeT() => b == SupportedConeT::<F>::ExponentialConeT(),
+        SupportedConeT::PowerConeT(al) => b == SupportedConeT::<F>::PowerConeT(al),
+        SupportedConeT::GenPowerConeT(al, d2) => b matches SupportedConeT::GenPowerConeT(bl, e2) && bl@ == al@ && e2 == d2,
+    }
+}
+impl Clone for SupportedConeT<F> {
+    fn clone(&self) -> (r: Self)
+        ensures cone_same(*self, r),
+    {
+        match self {
+            SupportedConeT::ZeroConeT(d) => SupportedConeT::ZeroConeT(*d),
+            SupportedConeT::NonnegativeConeT(d) => SupportedConeT::NonnegativeConeT(*d),
+            SupportedConeT::SecondOrderConeT(d) => SupportedConeT::SecondOrderConeT(*d),
+            SupportedConeT::ExponentialConeT() => SupportedConeT::ExponentialConeT(),
+            SupportedConeT::PowerConeT(al) => SupportedConeT::PowerConeT(*al),
+            SupportedConeT::GenPowerConeT(al, d2) => { let c = al.clone(); assert(c@ =~= al@); SupportedConeT::GenPowerConeT(c, *d2) }
+        }
+    }
+}
+// <[T]>::to_vec clones element by element (std)
+pub assume_specification<T: Clone> [<[T]>::to_vec] (s: &[T]) -> (r: Vec<T>)
+    ensures r@.len() == s@.len(), forall|i: int| 0 <= i < s@.len() ==> cloned(#[trigger] s@[i], r@[i]);
+pub proof fn lemma_cloned_cone(a: SupportedConeT<F>, b: SupportedConeT<F>)
+    requires cloned(a, b),
+    ensures cone_same(a, b), nvars_spec(b) == nvars_spec(a), tag_of_t(b) == tag_of_t(a), cone_constructible(a) ==> cone_constructible(b),
+{ }
+pub open spec fn sc_sym(c: SupportedCone<F>) -> bool {
+    c is ZeroCone || c is NonnegativeCone || c is SecondOrderCone
+}
+impl ZeroCone<F> {
+//@fn file=src/solver/core/cones/zerocone.rs in="Cone<T> for ZeroCone<T>" name=is_symmetric rules=R1 ret=r
+//@contract
+    ensures r,
+//@end
+}
+impl NonnegativeCone<F> {
+//@fn file=src/solver/core/cones/nonnegativecone.rs in="Cone<T> for NonnegativeCone<T>" name=is_symmetric rules=R1 ret=r
+//@contract
+    ensures r,
+//@end
+}
+impl SecondOrderCone<F> {
+//@fn file=src/solver/core/cones/socone.rs in="Cone<T> for SecondOrderCone<T>" name=is_symmetric rules=R1 ret=r
+//@contract
+    ensures r,
+//@end
+}
+impl ExponentialCone<F> {
+//@fn file=src/solver/core/cones/expcone.rs in="Cone<T> for ExponentialCone<T>" name=is_symmetric rules=R1 ret=r
+//@contract
+    ensures !r,
+//@end
+}
+impl PowerCone<F> {
+//@fn file=src/solver/core/cones/powcone.rs in="Cone<T> for PowerCone<T>" name=is_symmetric rules=R1 ret=r
+//@contract
+    ensures !r,
+//@end
+}
+impl GenPowerCone<F> {
+//@fn file=src/solver/core/cones/genpowcone.rs in="Cone<T> for GenPowerCone<T>" name=is_symmetric rules=R1 ret=r
+//@contract
+    ensures !r,
+//@end
+}
+// `impl Cone<T> for SupportedCone<T>` as generated by #[enum_dispatch] (macro expansion, ASSUMED to be this: every method matches on
+// the variant and calls the member's method of the same name); bodies verified against the members' contracts above
+impl SupportedCone<F> {
+    pub fn numel(&self) -> (r: usize)
+        requires sc_numel(*self) <= usize::MAX,
+        ensures r == sc_numel(*self),
+    {
+        match self {
+            SupportedCone::ZeroCone(inner) => inner.numel(),
+            SupportedCone::NonnegativeCone(inner) => inner.numel(),
+            SupportedCone::SecondOrderCone(inner) => inner.numel(),
+            SupportedCone::ExponentialCone(inner) => inner.numel(),
+            SupportedCone::PowerCone(inner) => inner.numel(),
+            SupportedCone::GenPowerCone(inner) => inner.numel(),
+        }
+    }
+    pub fn is_symmetric(&self) -> (r: bool)
+        ensures r == sc_sym(*self),
+    {
+        match self {
+            SupportedCone::ZeroCone(inner) => inner.is_symmetric(),
+            SupportedCone::NonnegativeCone(inner) => inner.is_symmetric(),
+            SupportedCone::SecondOrderCone(inner) => inner.is_symmetric(),
+            SupportedCone::ExponentialCone(inner) => inner.is_symmetric(),
+            SupportedCone::PowerCone(inner) => inner.is_symmetric(),
+            SupportedCone::GenPowerCone(inner) => inner.is_symmetric(),
+        }
+    }
+}
+// sum of the sizes of the first k internal cones (= `offs` of unit composite)
+pub open spec fn sc_total(cones: Seq<SupportedCone<F>>, k: int) -> nat decreases k {
+    if k <= 0 { 0 } else { sc_total(cones, k - 1) + sc_numel(cones[k - 1]) }
+}
+// internal cone i was made from description i
+pub open spec fn made_from(cones: Seq<SupportedCone<F>>, types: Seq<SupportedConeT<F>>, k: int) -> bool {
+    forall|i: int| 0 <= i < k ==> tag_of(#[trigger] cones[i]) == tag_of_t(types[i]) && sc_numel(cones[i]) == nvars_spec(types[i])
+}
+pub open spec fn all_sym(cones: Seq<SupportedCone<F>>, k: int) -> bool { forall|i: int| 0 <= i < k ==> sc_sym(#[trigger] cones[i]) }
+pub open spec fn all_constructible(types: Seq<SupportedConeT<F>>) -> bool {
+    forall|k: int| 0 <= k < types.len() ==> cone_constructible(#[trigger] types[k])
+}
+pub proof fn lemma_sc_total(cones: Seq<SupportedCone<F>>, types: Seq<SupportedConeT<F>>, k: int)
+    requires 0 <= k <= cones.len(), k <= types.len(), made_from(cones, types, k),
+    ensures sc_total(cones, k) == cone_start(types, k),
+    decreases k,
+{ if k > 0 { lemma_sc_total(cones, types, k - 1); assert(sc_numel(cones[k - 1]) == nvars_spec(types[k - 1])); } }
+pub proof fn lemma_cone_start_same(t0: Seq<SupportedConeT<F>>, t1: Seq<SupportedConeT<F>>, k: int)
+    requires 0 <= k <= t0.len(), t0.len() == t1.len(), forall|i: int| 0 <= i < t0.len() ==> nvars_spec(#[trigger] t1[i]) == nvars_spec(t0[i]),
+    ensures cone_start(t1, k) == cone_start(t0, k),
+    decreases k,
+{ if k > 0 { lemma_cone_start_same(t0, t1, k - 1); assert(nvars_spec(t1[k - 1]) == nvars_spec(t0[k - 1])); } }
+
+//@fn file=src/solver/core/cones/compositecone.rs in="impl<T> CompositeCone<T>" name=new from="let types = types.to_vec()" to="let numel =" header="fn new_head<T: FloatT>(types: &[SupportedConeT<T>])" as=new_head rules=R1,R30,drop:HashMap::new(),drop:type_counts.entry(
+//@contract
+    requires total_nvars(types@) <= usize::MAX, all_constructible(types@),
+//@pre
+        let ghost types0 = types@;
+//@before "let ncones"
+        proof {
+            assert forall|i: int| 0 <= i < types0.len() implies nvars_spec(#[trigger] types@[i]) == nvars_spec(types0[i]) && tag_of_t(types@[i]) == tag_of_t(types0[i]) && cone_constructible(types@[i]) by {
+                lemma_cloned_cone(types0[i], types@[i]);
+            }
+            lemma_cone_start_same(types0, types@, types0.len() as int);
+        }
+//@iter 1
+it1
+//@loop 1
+            invariant
+                it1.seq().len() == types@.len(), forall|i: int| 0 <= i < types@.len() ==> *(#[trigger] it1.seq()[i]) == types@[i],
+                forall|i: int| 0 <= i < types@.len() ==> cone_constructible(#[trigger] types@[i]),
+                cones@.len() == it1.index@,
+                made_from(cones@, types@, it1.index@ as int),
+                _is_symmetric == all_sym(cones@, it1.index@ as int),
+//@body_start 1
+            let ghost cones_before = cones@;
+            let ghost sym_before = _is_symmetric;
+//@body_end 1
+            proof {
+                let k = it1.index@ as int;
+                assert(cones@ == cones_before.push(cone));
+                assert forall|i: int| 0 <= i < k + 1 implies tag_of(#[trigger] cones@[i]) == tag_of_t(types@[i]) && sc_numel(cones@[i]) == nvars_spec(types@[i]) by {
+                    if i < k { assert(cones@[i] == cones_before[i]); }
+                }
+                if sym_before && sc_sym(cone) {
+                    assert forall|i: int| 0 <= i < k + 1 implies sc_sym(#[trigger] cones@[i]) by { if i < k { assert(cones@[i] == cones_before[i]); } }
+                } else if !sym_before {
+                    let w = choose|i: int| 0 <= i < k && !sc_sym(#[trigger] cones_before[i]);
+                    assert(cones@[w] == cones_before[w]);
+                } else {
+                    assert(cones@[k] == cone);
+                }
+            }
+//@iter 2
+it2
+//@loop 2
+            invariant
+                it2.seq().len() == cones@.len(), forall|i: int| 0 <= i < cones@.len() ==> *(#[trigger] it2.seq()[i]) == cones@[i],
+                cones@.len() == types@.len(), made_from(cones@, types@, cones@.len() as int),
+                cone_start(types@, types@.len() as int) <= usize::MAX,
+                r30_s1 == sc_total(cones@, it2.index@ as int),
+//@body_start 2
+            proof {
+                let k = it2.index@ as int;
+                lemma_sc_total(cones@, types@, k + 1);
+                lemma_cone_start_mono(types@, k + 1, types@.len() as int);
+            }
+//@after "let numel"
+        proof {
+            lemma_sc_total(cones@, types@, cones@.len() as int);
+            // what the struct literal then stores: one internal cone per description, of the same family and size; numel = the sum of nvars
+            assert(cones@.len() == types0.len());
+            assert(made_from(cones@, types@, types0.len() as int));
+            assert(numel == total_nvars(types0));
+            assert(_is_symmetric == all_sym(cones@, cones@.len() as int));
+        }
+//@end
+
+// ---- rng_cones_iter / RangeSupportedConesIterator::next: the row ranges of a list of cone descriptions, one after the other
+pub proof fn lemma_cone_start_mono(cones: Seq<SupportedConeT<F>>, a: int, b: int)
+    requires 0 <= a <= b <= cones.len(),
+    ensures cone_start(cones, a) <= cone_start(cones, b),
+    decreases b - a,
+{
+    if a < b { lemma_cone_start_mono(cones, a, b - 1); }
+}
+// PARTITION: the ranges cone_start(k) .. cone_start(k + 1) are contiguous from 0, and every row below the total lies in one of them
+pub proof fn lemma_cone_partition(cones: Seq<SupportedConeT<F>>, i: int, n: int)
+    requires 0 <= n <= cones.len(), 0 <= i < cone_start(cones, n),
+    ensures exists|k: int| 0 <= k < n && cone_start(cones, k) <= i < #[trigger] cone_start(cones, k + 1),
+    decreases n,
+{
+    if n > 0 {
+        if i >= cone_start(cones, n - 1) { assert(cone_start(cones, n - 1) <= i < cone_start(cones, (n - 1) + 1)); }
+        else {
+            lemma_cone_partition(cones, i, n - 1);
+            let k = choose|k: int| 0 <= k < n - 1 && cone_start(cones, k) <= i < #[trigger] cone_start(cones, k + 1);
+            assert(0 <= k < n && cone_start(cones, k) <= i < cone_start(cones, k + 1));
+        }
+    }
+}
+impl SupportedConeT<F> {
+// (second extraction; the first is in unit postprocess)
+//@fn file=src/solver/core/cones/supportedcone.rs in="impl<T> SupportedConeT<T>" name=nvars rules=R12,R2,R1 ret=r
+//@contract
+    requires nvars_spec(*self) <= usize::MAX,
+    ensures r == nvars_spec(*self),
+//@end
+}
+pub mod cone_ranges {
+    use super::*;
+    use std::ops::Range;
+//@struct file=src/solver/core/cones/supportedcone.rs name=RangeSupportedConesIterator
+    // local stand-in for std's `Iterator` (declaration only): an impl of a trait cannot add a `requires` in Verus, and the
+    // overflow-freedom of `self.start + cone.nvars()` needs one.  `wf` = the state reached from rng_cones_iter by calls of next
+    pub trait Iterator {
+        type Item;
+        spec fn wf(&self) -> bool;
+        fn next(&mut self) -> (r: Option<Self::Item>)
+            requires old(self).wf(),
+            ensures final(self).wf();
+    }
+    impl<'a> Iterator for RangeSupportedConesIterator<'a, F> {
+        type Item = std::ops::Range<usize>;
+        open spec fn wf(&self) -> bool {
+            &&& self.index <= self.cones@.len() && self.start == cone_start(self.cones@, self.index as int)
+            &&& total_nvars(self.cones@) <= usize::MAX && nvars_fit(self.cones@)
+        }
+//@fn file=src/solver/core/cones/supportedcone.rs in="Iterator for RangeSupportedConesIterator" name=next rules=R1,R12 ret=r
+//@contract
+    ensures
+        final(self).cones@ == old(self).cones@,
+        // the k-th call yields cone_start(k) .. cone_start(k + 1): it starts where the previous range ended (0 for the first)
+        // and has nvars(cones[k]) entries
+        old(self).index < old(self).cones@.len() ==> final(self).index == old(self).index + 1 && r is Some
+            && r->Some_0.start == cone_start(old(self).cones@, old(self).index as int)
+            && r->Some_0.end == cone_start(old(self).cones@, old(self).index + 1)
+            && r->Some_0.end - r->Some_0.start == nvars_spec(old(self).cones@[old(self).index as int]),
+        // after the last cone: None, and the iterator stays where it is
+        old(self).index >= old(self).cones@.len() ==> r is None && final(self).index == old(self).index && final(self).start == old(self).start,
+//@pre
+        proof {
+            if self.index < self.cones@.len() { lemma_cone_start_mono(self.cones@, self.index as int + 1, self.cones@.len() as int); }
+        }
+//@end
+    }
+    pub trait ConeRanges<'a> { fn rng_cones_iter(&'a self) -> RangeSupportedConesIterator<'a, F>; }
+    impl<'a> ConeRanges<'a> for [SupportedConeT<F>] {
+//@fn file=src/solver/core/cones/supportedcone.rs in="ConeRanges<'a, T> for [SupportedConeT<T>]" name=rng_cones_iter rules=R1,R12 ret=r
+//@contract
+    ensures r.cones@ == self@, r.index == 0, r.start == 0,
+        total_nvars(self@) <= usize::MAX && nvars_fit(self@) ==> r.wf(),
+//@end
+    }
+}
+
+
+// ================================================================== item 3: src/solver/implementations/default/settings.rs
+// Which strings are accepted.  Verus reads a string-literal pattern as equality of `str` values, so the contracts say
+// `s == "auto"` (not equality of the character sequences: vstd has no extensionality for str).  Rule `fmtmsg` (new, additive)
+// replaces `format!(..)` by `fmt_message()`: the message text is outside the contract.
+// cfg: `"faer"` needs feature faer-sparse, validate_chordal_decomposition_merge_method and its two call sites need feature sdp:
+// both are off in the default feature set and dropped by R12 exactly as rustc drops them.
+#[verifier::external_body]
+pub fn fmt_message() -> (r: String) { unimplemented!() }
+// ASSUMED (std: `str` equality is equality of contents; vstd only has the other direction): two strs with the same characters are equal
+#[verifier::external_body]
+pub proof fn ax_str_ext(a: &str, b: &str) ensures a@ == b@ ==> a == b { }
+pub open spec fn direct_solve_method_ok(s: Seq<char>) -> bool { s == "auto"@ || s == "qdldl"@ }
+//@fn file=src/solver/implementations/default/settings.rs name=validate_direct_solve_method rules=R12,fmtmsg ret=r
+//@contract
+    ensures r is Ok <==> direct_solve_method_ok(direct_solve_method@),
+//@pre
+    proof { ax_str_ext(direct_solve_method, "auto"); ax_str_ext(direct_solve_method, "qdldl"); }
+//@end
+impl DefaultSettings<F> {
+//@fn file=src/solver/implementations/default/settings.rs in="impl<T> DefaultSettings<T>" name=validate rules=R1,R12 ret=r
+//@contract
+    ensures r is Ok <==> direct_solve_method_ok(self.direct_solve_method@),
+//@end
+//@fn file=src/solver/implementations/default/settings.rs in="Settings<T> for DefaultSettings<T>" name=core_mut rules=R1 ret=r
+//@contract
+    ensures *r == *old(self), *final(r) == *final(self),
+//@end
+}
+// the struct that #[derive(Builder)] (derive_builder) generates: every field wrapped in Option (macro expansion, ASSUMED; only the
+// field read by `validate` is kept)
+pub struct DefaultSettingsBuilder<T> { pub direct_solve_method: Option<String>, pub _p: Option<T> }
+impl DefaultSettingsBuilder<F> {
+//@fn file=src/solver/implementations/default/settings.rs in="impl<T> DefaultSettingsBuilder<T>" name=validate rules=R1,R12 ret=r
+//@contract
+    ensures
+        // an unset method is accepted (the builder then fills in the default "auto")
+        self.direct_solve_method is None ==> r is Ok,
+        self.direct_solve_method matches Some(m) ==> (r is Ok <==> direct_solve_method_ok(m@)),
 //@end
 }
 
